@@ -70,7 +70,7 @@ func (s Set[T]) Has(val T) bool {
 func (s Set[T]) Copy() Set[T] {
 	ret := NewSet(s.rules)
 	for k, v := range s.vals {
-		ret.vals[k] = v
+		ret.vals[k] = append([]T(nil), v...)
 	}
 	return ret
 }
